@@ -152,6 +152,8 @@ def _parse_into(unit, path, seen, assumed):
         elif tag == '@prelude':
             for f in rest_nc.split():
                 unit.entries.append(('prelude', f))
+        elif tag == '@raw-file':
+            unit.entries.append(('raw-file', rest_nc.strip()))
         elif tag == '@prelude-if':
             feat, f = rest_nc.split()
             unit.entries.append(('prelude-if', feat, f))
@@ -188,9 +190,11 @@ def _parse_into(unit, path, seen, assumed):
             cur_block = None
             unit.entries.append(('free', file, cur_fn))
         elif tag == '@fn':
-            m = re.match(r'(\S+)(\s+assumed)?', rest_nc)
+            m = re.match(r'(\S+)(\s+assumed|\s+trusted)?', rest_nc)
             cur_fn = FnSpec(m.group(1))
             cur_fn.assumed = bool(m.group(2)) or assumed
+            # `trusted`: the body is outside the verifier's subset in EVERY unit; the contract is an assumption of the check (reported as such)
+            cur_fn.trusted = bool(m.group(2)) and m.group(2).strip() == 'trusted'
             cur_fn.line = ln
             if cur_block is None:
                 raise SpecError('%s:%d @fn outside @trait/@impl' % (path, ln))
@@ -752,7 +756,9 @@ class Extractor:
             rname = rule.rstrip('?')
             if rname in ('R13r', 'R13w', 'R13e'):
                 lo = sig[parts['name_i']].end
-                txt = src.text[lo:it.end]
+                # an assumed function keeps only its signature (rule A0 replaces the body)
+                hi = sig[parts['sig_end_tok']].start if (fs.assumed and parts['has_body']) else it.end
+                txt = src.text[lo:hi]
                 fired = False
                 for rx, rep in REWRITE_RULES[rname]:
                     for m in rx.finditer(txt):
@@ -773,7 +779,7 @@ class Extractor:
         if spec_txt:
             p.insert(end_tok.start, '\n' + spec_txt)
         self.fn_index.append({'fn': what, 'file': src.path, 'line_start': src.line_of(it.start), 'line_end': src.line_of(it.end - 1),
-                              'assumed': fs.assumed, 'has_contract': has_spec, 'known': sorted(k for (_, k) in fs.requires + fs.ensures if k)})
+                              'assumed': fs.assumed, 'trusted': getattr(fs, 'trusted', False), 'has_contract': has_spec, 'known': sorted(k for (_, k) in fs.requires + fs.ensures if k)})
         if not parts['has_body']:
             text, log, orig = p.render()
             self.log += log
@@ -785,7 +791,8 @@ class Extractor:
         bc = sig[bo].match
         body_s, body_e = sig[bo].end, sig[bc].start
         if fs.assumed:
-            p.rewrite(sig[bo].start, sig[bc].end, '{ unimplemented!() }', 'A0', 'contract assumed in this unit; proved in the unit that owns the function')
+            p.rewrite(sig[bo].start, sig[bc].end, '{ unimplemented!() }', 'A0', 'contract ASSUMED: the body is outside the verifier subset (trusted)' if getattr(fs, 'trusted', False)
+                      else 'contract assumed in this unit; proved in the unit that owns the function')
             text, log, orig = p.render()
             self.log += log
             self.record_span(src, it.attr_start, it.end, what)
@@ -1173,6 +1180,9 @@ def generate(spec_path, repo, features, known_off=False, canary=None):
                 path = os.path.join(os.path.dirname(os.path.abspath(spec_path)), e[2])
                 body.append('// ---- prelude %s (feature %s) ----\n' % (e[2], e[1]) + expand_macros(open(path).read(), DEFINES) + '\n')
                 preludes.append(e[2])
+        elif e[0] == 'raw-file':
+            # text produced at run time (macro output of the current tree, transformed by tools/glue.py)
+            body.append('// ---- raw-file %s ----\n' % e[1] + open(os.path.join(VERIF, e[1])).read() + '\n')
         elif e[0] == 'raw':
             body.append(expand_macros(e[1], DEFINES) + '\n')
         elif e[0] == 'const':
